@@ -101,7 +101,8 @@ def check_property(pid, tier, seed):
                                 "contract_source": u["template"], "status": r.obligations[0]["status"]})
         # ------------------------------------------------------------------ Kani units
         for k in spec.get("kani", []):
-            meta = harness_meta(k["files"])
+            inject = k.get("inject", ())
+            meta = harness_meta(list(k["files"]) + [i["file"] for i in inject])
             sel = [n for n, d in meta.items() if d["tier"] == "quick" or tier == "thorough"]
             if not sel:
                 continue
@@ -110,7 +111,7 @@ def check_property(pid, tier, seed):
                                  map_shim_files=k.get("map_shim_files", ()),
                                  timeout_s=k.get("timeout_s", 1500 if tier == "quick" else 7200),
                                  harness_timeout=k.get("harness_timeout", "600s" if tier == "quick" else "3000s"),
-                                 extra_args=["--exact"] if False else k.get("extra_args", ()))
+                                 extra_args=k.get("extra_args", ()), inject=inject)
             cmds.append(re.sub(r"/var/tmp/[^ ]*", "<scratch>/target", kr.cmd))
             assumptions_scan_paths += k["files"] + ["shim/harness_support.rs"]
             solver_time += sum((r.time_s or 0) for r in kr.results.values())
@@ -142,7 +143,8 @@ def check_property(pid, tier, seed):
                 obligations.append(dict(name=oname, engine=eng, status=status, detail=detail, time_s=r.time_s,
                                         bound=d.get("bound"), kind="harness", harness=n, files=k["files"],
                                         playback=r.playback, raw=r.raw, failed_checks=r.failed_checks,
-                                        termination=bool(d.get("termination")), annotations=k.get("annotations", ())))
+                                        termination=bool(d.get("termination")), annotations=k.get("annotations", ()),
+                                        inject=inject))
                 if d.get("anchor"):
                     functions_under_contract.append(d["anchor"])
                 for s in r.stubs:
@@ -216,8 +218,9 @@ def check_property(pid, tier, seed):
         "wall_s": round(time.time() - t0, 1),
         "violations": len(violations),
     }
-    os.makedirs(os.path.join(VERIF, "evidence"), exist_ok=True)
-    with open(os.path.join(VERIF, "evidence", f"{pid}.json"), "w") as fh:
+    evdir = os.environ.get("VERIF_EVIDENCE_DIR", os.path.join(VERIF, "evidence"))
+    os.makedirs(evdir, exist_ok=True)
+    with open(os.path.join(evdir, f"{pid}.json"), "w") as fh:
         json.dump(ev, fh, indent=1)
 
     for l in known_lines:
@@ -257,7 +260,7 @@ def _match_finding(o, findings):
 
 
 def write_replay(pid, o):
-    d = os.path.join(VERIF, "replays", pid)
+    d = os.path.join(os.environ.get("VERIF_REPLAY_DIR", os.path.join(VERIF, "replays")), pid)
     os.makedirs(d, exist_ok=True)
     fn = re.sub(r"[^A-Za-z0-9_.-]+", "_", o["name"]) + ".json"
     path = os.path.join(d, fn)
@@ -267,11 +270,13 @@ def write_replay(pid, o):
     if o["engine"].startswith("kani"):
         rec["harness"] = o["harness"]
         rec["harness_files"] = o["files"]
+        rec["inject"] = list(o.get("inject", ()))
         rec["values"] = o.get("playback")
         rec["raw"] = o.get("raw", "")[-6000:]
         if o.get("playback") is not None or o.get("termination"):
             vals = o.get("playback") or []
-            repro, out = kani_runner.native_replay([os.path.join(VERIF, f) for f in o["files"]], o["harness"], vals)
+            repro, out = kani_runner.native_replay([os.path.join(VERIF, f) for f in o["files"]], o["harness"], vals,
+                                                   inject=o.get("inject", ()))
             rec["native_replay"] = {"reproduced": repro, "output": out[-3000:]}
             if repro:
                 suffix = ""
@@ -288,7 +293,7 @@ def replay(path):
     print(f"replay of {rec['obligation']} (property {rec['property']})")
     if rec["engine"].startswith("kani") and rec.get("values") is not None:
         repro, out = kani_runner.native_replay([os.path.join(VERIF, f) for f in rec["harness_files"]],
-                                               rec["harness"], rec["values"])
+                                               rec["harness"], rec["values"], inject=rec.get("inject", ()))
         print(out[-3000:])
         print("REPRODUCED" if repro else ("NOT-REPRODUCED" if repro is False else "REPLAY-ERROR"))
         return 1 if repro else 0
